@@ -168,6 +168,21 @@ def run(chk, model_ok=True):
             ctor_expected.append(got)
     lines += ctor_lines
     expected += ctor_expected
+    # wait() / wait_sync() on a fake clock, compared with the model's release times
+    wlines, wrels, n_wait = fake_clock_waits(chk, mod, rng, 400 if chk.tier == "quick" else 8000)
+    if model_ok and wlines:
+        mout, _, _ = common.run_model(wlines)
+        for ln, rels, mo in zip(wlines, wrels, mout):
+            calls = [int(x) for x in ln.split(" ")[2].split(",")]
+            ts = [None if x == "n" else int(x) for x in mo[3:].split(",")]
+            mrel = [release(c, t) for c, t in zip(calls, ts)]
+            if mrel != rels:
+                chk.violation("correspondence", f"release times of wait()/wait_sync() differ from the model: {ln[:120]}",
+                              {"kind": "correspondence", "lines": [ln], "impl": [str(rels)], "model": [str(mrel)],
+                               "broken": ["correspondence policer.py wait()/wait_sync() <-> Policer.release"]},
+                              no_input=True)
+                break
+    n_sess = session_policing(chk)
     if model_ok:
         model, rc, err = common.run_model(lines)
         diffs = common.diff_streams(lines, expected, model)
@@ -179,7 +194,7 @@ def run(chk, model_ok=True):
                            "broken": ["correspondence policer.py <-> GufoSnmp.Policer.getTimeout"]},
                           no_input=True)
     chk.coverage.update({
-        "evaluations": len(lines),
+        "evaluations": len(lines) + n_wait + n_sess,
         "distinct_nontrivial": len(distinct),
         "rule": "histories generated with the real RPSPolicer.get_timeout as transition function: interval "
                 "from a boundary-biased set, each next call at previous release + gap, gap in {0, <interval, "
@@ -191,11 +206,168 @@ def run(chk, model_ok=True):
         "admissible_histories_checked_by_oracle": n_adm,
         "delay_kind_histogram": gap_hist,
         "constructor_probes": len(CTOR_RPS),
+        "fake_clock_wait_histories": n_wait,
+        "session_level_policing_scenarios": n_sess,
     })
     chk.assumptions += [
         "float division NS / rps and int() truncation in RPSPolicer.__init__ are trusted (the model takes the quotient as input)",
         "wait()/wait_sync() sleep for the returned delay (time.sleep / asyncio.sleep and the clock are outside the model)",
     ]
+
+
+def fake_clock_waits(chk, mod, rng, n_hist):
+    """wait() / wait_sync() on a fake clock: the release time of each request is the clock after the wait"""
+    import asyncio
+    clock = {"t": 0, "slept": []}
+
+    def fake_sleep(sec):
+        ns = int(round(sec * mod.NS))
+        clock["slept"].append(ns)
+        clock["t"] += ns
+
+    class FakeAsyncio:
+        @staticmethod
+        async def sleep(sec):
+            fake_sleep(sec)
+    saved = (mod.perf_counter_ns, mod.sleep, mod.asyncio)
+    mod.perf_counter_ns = lambda: clock["t"]
+    mod.sleep = fake_sleep
+    mod.asyncio = FakeAsyncio
+    lines, want = [], []
+    n = 0
+    try:
+        for h in range(n_hist):
+            delta = rng.choice([1, 2, 7, 100, 999_999, 1_000_000, 1_000_001, 10 ** 8, 333_333_333, 10 ** 9, 2 ** 33])
+            use_async = rng.random() < 0.5
+            p = mod.RPSPolicer(1.0)
+            p._delta, p._prev = delta, None
+            clock["t"] = rng.choice([0, 5, rng.randrange(10 ** 12)])
+            calls, rels = [], []
+            for _ in range(rng.randrange(1, 25)):
+                calls.append(clock["t"])
+                if use_async:
+                    asyncio.run(p.wait())
+                else:
+                    p.wait_sync()
+                rels.append(clock["t"])
+                k = rng.randrange(8)
+                gap = [0, rng.randrange(0, delta), delta, max(delta - 1, 0), delta + 1, 1,
+                       delta * rng.randrange(2, 9) + rng.randrange(0, delta), rng.randrange(0, 3 * delta + 1)][k]
+                clock["t"] += gap
+            n += 1
+            outs = [r - c if r != c else None for c, r in zip(calls, rels)]
+            bad = oracle(delta, calls, outs)
+            line = f"policer {delta} {','.join(str(c) for c in calls)}"
+            if bad:
+                chk.violation("oracle", f"{'wait' if use_async else 'wait_sync'}() with interval {delta} ns: {bad}",
+                              {"kind": "oracle", "lines": [line], "impl": [str(rels)], "expected": bad,
+                               "note": "release times observed on a fake clock driving wait()/wait_sync()"})
+            lines.append(line)
+            want.append(rels)
+    finally:
+        mod.perf_counter_ns, mod.sleep, mod.asyncio = saved
+    return lines, want, n
+
+
+def session_policing(chk):
+    """every request of a rate-limited session is preceded by exactly one policer wait (sync and async clients)"""
+    import sys
+    sys.path.insert(0, "/verif/harness/py")
+    import ber
+    from vlib import e2e
+    env = e2e.env()
+    from gufo.snmp.policer import BasePolicer, RPSPolicer
+    from gufo.snmp import SnmpVersion
+    events = []
+
+    class Counting(BasePolicer):
+        def get_timeout(self, ts):
+            return None
+
+        async def wait(self):
+            events.append("wait")
+
+        def wait_sync(self):
+            events.append("wait")
+    n = 0
+    peer = e2e.Peer("v2c")
+    rows = [((1, 3, 6, 1, k), ber.INT(k)) for k in range(1, 8)]
+
+    def reply(req):
+        o = tuple(req["varbinds"][0][0]) if req.get("varbinds") else ()
+        later = [r for r in rows if r[0] > o]
+        if req["pdu_type"] == 5:
+            out = later[:2]
+            vbs = [ber.varbind(a, v) for a, v in out] or [ber.varbind(o, ber.ENDOFMIBVIEW)]
+        elif req["pdu_type"] == 1:
+            vbs = [ber.varbind(*later[0])] if later else [ber.varbind(o, ber.ENDOFMIBVIEW)]
+        else:
+            vbs = [ber.varbind(a, ber.INT(1)) for a, _, _ in req["varbinds"]]
+        return [peer.response(req, vbs)]
+    # sync client
+    from gufo.snmp.sync_client import SnmpSession
+    for what in ("get", "get_many", "getnext", "getbulk", "fetch", "fetch-nobulk"):
+        del events[:]
+        conv = e2e.Conv(peer, env)
+        sess = SnmpSession("127.0.0.1", port=env.agent.port, community="public", version=SnmpVersion.v2c,
+                           timeout=0.05, policer=Counting(), max_repetitions=2, allow_bulk=what != "fetch-nobulk")
+
+        def script(op, req):
+            events.append("req")
+            return reply(req)
+        sess._sock = e2e.SockShim(conv, script)
+        if what == "get":
+            sess.get("1.3.6.1.1")
+        elif what == "get_many":
+            sess.get_many(["1.3.6.1.1", "1.3.6.1.2"])
+        elif what == "getnext":
+            list(sess.getnext("1.3.6.1"))
+        elif what == "getbulk":
+            list(sess.getbulk("1.3.6.1"))
+        else:
+            list(sess.fetch("1.3.6.1"))
+        n += 1
+        nreq = events.count("req")
+        ok = events == ["wait", "req"] * nreq and nreq >= 1
+        if not ok:
+            chk.violation("oracle", f"sync SnmpSession.{what} with a policer: {nreq} requests but the policer was consulted "
+                          f"{events.count('wait')} times (events {events[:12]})",
+                          {"kind": "oracle", "lines": [f"sync {what}"], "impl": [str(events)],
+                           "expected": "one policer wait before every request"})
+    # async client
+    for what in ("get", "get_many", "getnext", "getbulk", "fetch"):
+        del events[:]
+
+        def ascript(dg):
+            events.append("req")
+            return reply(peer.decode(dg))
+
+        async def main(port):
+            from gufo.snmp.async_client import SnmpSession as ASession
+            s = ASession("127.0.0.1", port=port, community="public", version=SnmpVersion.v2c, timeout=0.2,
+                         policer=Counting(), max_repetitions=2)
+            if what == "get":
+                await s.get("1.3.6.1.1")
+            elif what == "get_many":
+                await s.get_many(["1.3.6.1.1"])
+            else:
+                it = {"getnext": s.getnext, "getbulk": s.getbulk, "fetch": s.fetch}[what]("1.3.6.1")
+                async for _ in it:
+                    pass
+        e2e.run_async(main, ascript)
+        n += 1
+        nreq = events.count("req")
+        if not (events == ["wait", "req"] * nreq and nreq >= 1):
+            chk.violation("oracle", f"async SnmpSession.{what} with a policer: {nreq} requests but the policer was "
+                          f"consulted {events.count('wait')} times (events {events[:12]})",
+                          {"kind": "oracle", "lines": [f"async {what}"], "impl": [str(events)],
+                           "expected": "one policer wait before every request"})
+    # limit_rps builds an RPSPolicer with the right interval
+    s = SnmpSession("127.0.0.1", port=env.agent.port, limit_rps=10, timeout=0.05)
+    if not isinstance(s._policer, RPSPolicer) or s._policer._delta != 10 ** 8:
+        chk.violation("oracle", "SnmpSession(limit_rps=10) does not install an RPSPolicer with a 100 ms interval",
+                      {"kind": "oracle", "lines": ["limit_rps=10"]})
+    return n + 1
 
 
 def replay(chk, path):
